@@ -358,6 +358,9 @@ def e2e(backend, main_rel, inc_rel, use_subdir_include_path=False, retain=False,
         finally:
             os.chdir(cwd)
         names = [v.name.segments[-1].name for v in data.namespace.variables]
+        # anything else at namespace level can only come from an included file (system headers declare typedefs)
+        names += ["typedef:" + str(t.name) for t in data.namespace.typedefs]
+        names += ["function:" + str(f.name.segments[-1].name) for f in data.namespace.functions]
         deptext = open(dep).read() if depfile and os.path.exists(dep) else None
         return names, lines, deptext
     finally:
@@ -468,6 +471,7 @@ def run(tier):
 
     # replay filter counterexamples: concrete filter run + real backend end to end
     seen = set()
+    spurious = []
     for backend, shard, args, kw, msg in cex:
         f = kw.get("f", args[0] if args else "b")
         g = kw.get("g", args[1] if len(args) > 1 else "bb")
@@ -482,7 +486,9 @@ def run(tier):
         lines, out, want = filter_concrete(backend, f, g, kinds)
         ck.traces += 1
         if out == want:
-            raise HarnessError(f"{backend} filter counterexample did not reproduce: f={f!r} g={g!r} kinds={kinds} ({msg})")
+            # decided after the end-to-end runs: reported as a harness error unless a reproduced violation exists
+            spurious.append(f"{backend} filter counterexample did not reproduce: f={f!r} g={g!r} kinds={kinds} ({msg})")
+            continue
         rel = "suffix" if g.endswith(f) and g != f else ("prefix" if g.startswith(f) and g != f else "other")
         key = dict(kind="filter", backend=backend, relation=rel)
         if (backend, rel) in seen:
@@ -557,10 +563,27 @@ def run(tier):
             ck.violation(f"{backend}: depfile targets {tgts} are not written in Make's quoting: {dt!r}", ck.write_replay(body), key=dict(kind="e2e-depfile-target", backend=backend))
         # depfile end to end
         sysinc = backend == "gcc"  # pcpp does not resolve system headers (passes the include through)
-        names, lines, deptext = e2e(backend, "main.h", "inc dir/o ther.h", depfile=True, sysinc=sysinc)
+        try:
+            names, lines, deptext = e2e(backend, "main.h", "inc dir/o ther.h", depfile=True, sysinc=sysinc)
+        except Exception as e:
+            if "stddef.h" not in str(e):
+                raise
+            # the parser was handed text of the system header (main.h itself parses: see the runs above)
+            names, lines, deptext = [f"parse error inside the included file: {str(e)[:160]}"], {}, None
+            body = ("from vf.props import c19\n" f"names, lines, dep = c19.e2e({backend!r}, 'main.h', 'inc dir/o ther.h', depfile=True, sysinc={sysinc!r})\nprint(names)\n"
+                    "sys.exit(0 if names == ['main_before', 'from_macro', 'main_after'] else 1)\n")
+            ck.violation(f"{backend}: main file including a local and a system header -> {names[0]}", ck.write_replay(body),
+                         key=dict(kind="e2e", backend=backend, relation="system-header"))
+            continue
         n_e2e += 1
         ok = deptext is not None and "tgt.o" in deptext and "main.h" in deptext and "inc\\ dir/o\\ ther.h" in deptext
         ok = ok and (not sysinc or "stddef.h" in deptext)
+        # gcc marks system headers with several flags ('# 1 "/usr/.../stddef.h" 1 3 4'): nothing of them may be reported
+        if names != ["main_before", "from_macro", "main_after"]:
+            body = ("from vf.props import c19\n" f"names, lines, dep = c19.e2e({backend!r}, 'main.h', 'inc dir/o ther.h', depfile=True, sysinc={sysinc!r})\nprint(names)\n"
+                    "sys.exit(0 if names == ['main_before', 'from_macro', 'main_after'] else 1)\n")
+            ck.violation(f"{backend}: main file including a local and a system header -> namespace content {names[:8]}, expected main_before, from_macro, main_after",
+                         ck.write_replay(body), key=dict(kind="e2e", backend=backend, relation="system-header"))
         if not ok:
             body = ("from vf.props import c19\n" f"names, lines, dep = c19.e2e({backend!r}, 'main.h', 'inc dir/o ther.h', depfile=True, sysinc={sysinc!r})\nprint(dep)\n"
                     f"sys.exit(0 if (dep and 'tgt.o' in dep and 'main.h' in dep and 'inc\\\\ dir/o\\\\ ther.h' in dep and (not {sysinc!r} or 'stddef.h' in dep)) else 1)\n")
@@ -569,4 +592,7 @@ def run(tier):
            "holds" if not [v for v in ck.violations if v["key"]["kind"].startswith("e2e")] else "flagged", runs=n_e2e, wall_s=round(time.time() - t, 1))
     ck.extra["explanation"] = ("CrossHair decides the filter predicate for all main/marker names (symbolic strings) and line sequences inside the "
                                "bound on the real filter functions; real g++ / pcpp runs confirm name relations end to end")
+    if spurious and not [v for v in ck.violations if not v.get("known")]:
+        # a counterexample that the concrete filter does not show and nothing else reproduced: harness error, not an alarm
+        raise HarnessError(spurious[0])
     return ck
